@@ -124,8 +124,11 @@ def main():
             json.dump(meta, open(meta_p, 'w'), indent=1)
             return 0
         # scratch copy of the framework
+        # SEED_VERIF_SRC: a clean built checkout of /verif's HEAD (so that
+        # edits in progress in /verif do not leak into the evaluation)
+        src = os.environ.get('SEED_VERIF_SRC', VERIF)
         sh('rsync -a --exclude .git --exclude work --exclude replays '
-           '--exclude seeded %s/ %s/' % (VERIF, vc))
+           '--exclude seeded %s/ %s/' % (src, vc))
         res = meta.setdefault('checks', {})
         for c in checks:
             t0 = time.time()
